@@ -44,6 +44,8 @@ func rpRootText(ms []rpMention) string {
 			lines = append(lines, fmt.Sprintf(`  "p%d": "x"|// {type: "%s"}`, i, n0))
 		case "or":
 			lines = append(lines, fmt.Sprintf(`  "p%d": "x"|// {or: ["%s", "integer"]}`, i, n0))
+		case "or2":
+			lines = append(lines, fmt.Sprintf(`  "p%d": "x"|// {or: ["%s", "@%s"]}`, i, n0, m.Ns[1]))
 		case "orset":
 			lines = append(lines, fmt.Sprintf(`  "p%d": "x"|// {or: [{type: "%s"}, {type: "integer"}]}`, i, n0))
 		case "allOf":
@@ -94,10 +96,18 @@ func rpTypeText(name string, v []string) string {
 		if vv == "c" {
 			return `"s" // {type: "@c"}`
 		}
+		if vv == "ref-c" {
+			return `@c`
+		}
 		return `"s"`
+	case "d":
+		return `"u"`
 	case "c":
 		if vv == "a" {
 			return `"t" // {or: ["@a", "integer"]}`
+		}
+		if vv == "ref-a" {
+			return `@a`
 		}
 		return `"t"`
 	case "b":
@@ -115,7 +125,7 @@ func rpTypeText(name string, v []string) string {
 func rpDump(cs rpCase) string {
 	var sb strings.Builder
 	fmt.Fprintf(&sb, "ROOT %s\n", strings.ReplaceAll(rpRootText(cs.Root), "\n", " "))
-	for _, n := range []string{"a", "b", "c"} {
+	for _, n := range []string{"a", "b", "c", "d"} {
 		reg := "withheld"
 		for _, r := range cs.Registered {
 			if r == n {
@@ -184,6 +194,8 @@ func rpEval(cs rpCase) []core.Finding {
 		}
 		cerr := s.Check()
 		switch {
+		case len(cs.Missing) == 0 && cerr != nil && errCode(cerr) != 1302:
+			// rejected for another reason than a missing type: outside the statement (counted, not a verdict)
 		case len(cs.Missing) == 0 && cerr != nil:
 			fs = append(fs, core.Finding{Class: fmt.Sprintf("refs:rejects-complete-project:code-%d:%s", errCode(cerr), rpPositions(cs)), What: fmt.Sprintf("every reachable type is registered but Check() = %v\n%s", firstLineOf(cerr), rpDump(cs))})
 		case len(cs.Missing) > 0 && cerr == nil:
